@@ -261,6 +261,7 @@ Plan gen_c30(sk::Rng& r, Tier) {
     p.knobs["dest"] = r.pick<std::int64_t>({0, 0, 0, 2, 2, 2, 1});  // 0 new file, 1 existing file (never overwritten without a tty), 2 directory
     p.knobs["bits"] = r.pick<std::int64_t>({0, 0, 4});
     p.knobs["zero_hash"] = r.chance(1, 3);   // the stored payload's SHA-256 starts with 0x00
+    p.knobs["expired"] = r.chance(1, 5) ? r.range(1, 2) : 0;   // the manifest handed to the CLI has expired (1: an hour ago, 2: two seconds ago)
     if (p.knobs["zero_hash"] && p.knobs["size"] > 5000) p.knobs["size"] = 5000;
     Op op; op.k = "fetch"; p.ops.push_back(op);
     if (r.chance(1, 3)) p.ops.push_back(op);
@@ -306,6 +307,11 @@ void exec_c30(const Plan& p, Ctx& ctx) {
     if (p.knob("control", -1) >= 0) m.discovery_hints.push_back({"control", "control", hh + ":" + std::to_string(h.control_port), prio++});
     if (p.knob("fallback", -1) >= 0) m.fallback_hints.push_back({"control://" + hh + ":" + std::to_string(h.fallback_port), 0});
     h.manifest = m;
+    // in some runs the manifest has already expired when `eph fetch` is given it (an hour ago, or a moment ago)
+    if (const auto ex = p.knob("expired", 0); ex != 0) {
+        m.expires_at = std::chrono::system_clock::time_point(std::chrono::nanoseconds(sk::kWallEpochNs + sk::now_ns())) - std::chrono::seconds(ex == 1 ? 3600 : 2);
+        ctx.boundary("manifest_already_expired");
+    }
     const std::string uri = en::protocol::encode_manifest(m);
     h.start();
     sk::sleep_ns(300 * kMs);
